@@ -162,7 +162,7 @@ pub const C31: Check = Check {
     rule: "worlds (root on ordinary hosts, child CA below it) where the child's caRepository host or its rpkiNotify host takes every \
            form of a table: ordinary names, 'localhost' in all case variants, names merely containing localhost, IPv4 literals, \
            bracketed IPv6 literals (upper/lower case, v4-mapped), and each of them with an explicit port; run with \
-           allow-dubious-hosts off and on, RRDP and rsync both enabled, all three fallback policies. Observation at the peers: the \
+           allow-dubious-hosts off and on (half of the 'off' runs follow a run on the same cache with the option on), RRDP and rsync both enabled, all three fallback policies. Observation at the peers: the \
            fake rsync's invocation log and the fake HTTPS proxy's CONNECT/GET log. Oracle (own classifier): with the option off, \
            no logged request may target a host that is 'localhost' (ignoring case), an IP literal or carries a port; with the \
            option on the request must be seen (shows the observation channel is live). distinct = (host form, which URI, option) classes",
@@ -253,9 +253,17 @@ fn run_c31(ctx: &mut Ctx, rep: &mut Report) {
                     env.serve(&p);
                     let mut servers = RrdpServers::default();
                     servers.publish(&w, &p, &fake, &faults);
+                    // history: half of the "not allowed" cases follow a run on the same cache in which dubious hosts were
+                    // allowed (so local copies of their modules / repositories exist already)
+                    let after_allowed = !allow && rng.bool();
+                    if after_allowed {
+                        env.config.allow_dubious_hosts = true;
+                        let _ = run_engine(&env.config, true, &LocalExceptions::empty());
+                        env.config.allow_dubious_hosts = false;
+                    }
                     fake.take_log();
                     env.clear_rsync_log();
-                    ctx.begin_case(&json!({"form": form, "which": which, "allow": allow}));
+                    ctx.begin_case(&json!({"form": form, "which": which, "allow": allow, "after_allowed_run": after_allowed}));
                     let out = run_engine(&env.config, true, &LocalExceptions::empty());
                     rep.eval();
                     if out.snapshot.is_none() { rep.inconclusive("run failed"); continue }
@@ -290,7 +298,7 @@ fn run_c31(ctx: &mut Ctx, rep: &mut Report) {
                         let expected_https = which == 1 && port_ok;
                         if expected_rsync || expected_https { rep.inconclusive(format!("permitted request for host '{form}' ({which_s}, allow={allow}) never reached the fakes")); rep.count("permitted_request_not_seen", 1); }
                     }
-                    rep.class(format!("{class}|{form}|{which_s}|allow{}|seen{}", allow as u8, seen as u8));
+                    rep.class(format!("{class}|{form}|{which_s}|allow{}|seen{}|hist{}", allow as u8, seen as u8, after_allowed as u8));
                     if seen { rep.count("requests_seen_for_host_under_test", 1); }
                     if dubious && !allow && !seen { rep.count("dubious_blocked", 1); }
                     if rep.samples.len() < 2 && dubious && allow && seen { rep.sample(json!({"host": form, "uri": which_s, "rsync": rsync_hits, "https": https_hits})); }
